@@ -1,10 +1,10 @@
 \* hand-run instance (the check generates its configurations): timeout 600 tlc -workers 8 -config SimEquiv.cfg SimEquiv.tla
-\* InnerFix = FALSE is the fast loop as it is in the tree: EquivKnown holds, Equiv is violated (finding inner-gap-fill);
-\* InnerFix = TRUE is the proposed repair: Equiv holds.
+\* InnerFix = TRUE, PerMinute = TRUE is the fast loop as it is in the tree (since 651f7be3 / adf54ef1): Equiv holds.
+\* InnerFix = FALSE (former defect inner-gap-fill): EquivKnown holds, Equiv is violated.
 SPECIFICATION Spec
 VIEW View
-CONSTANTS K = 3 Chunk = 2 TF = 2 NMin = 6 Gaps = TRUE Spacing = TRUE InnerFix = FALSE PartialChunkRaises = FALSE RelExits = TRUE
+CONSTANTS K = 3 Chunk = 2 TF = 2 NMin = 6 Gaps = TRUE Spacing = TRUE InnerFix = TRUE PerMinute = TRUE PartialChunkRaises = FALSE RelExits = TRUE
 CONSTRAINT InPre
-INVARIANT EquivKnown
+INVARIANT Equiv
 INVARIANT NoErr
 CHECK_DEADLOCK FALSE
